@@ -10,6 +10,37 @@ SCEN = 'scen_remoteexc'
 MODEL = 'remoteexc'
 
 
+def _leaf(cls, state='live', depth=3, chain='none'):
+    return dict(cls=cls, argseed=7, depth=depth, chain=chain, chain_depth=2, state=state)
+
+
+def _ens(entries, state='live'):
+    return dict(ens=entries, n=len(entries), depth=2, chain='none', chain_depth=1, state=state, argseed=0, cls=-1)
+
+
+def _hops(pattern):
+    return [dict(proc=f'SpawnProcess-{k + 1}', rr=(2 if c == 'r' else 0), arg='d', tbdepth=1) for k, c in enumerate(pattern)]
+
+
+# fixed cases run first on every run (the minimal forms of past findings and the design spike's cases)
+CORPUS = [
+    # F22: one exception object wrapped twice (different texts) in one EnsembleError
+    dict(kind='ens', tree=_ens([dict(t='rem', e=_leaf(0)), dict(t='rem', share=0, depth=2)]), hops=_hops('f'), seed=1),
+    dict(kind='ens', tree=_ens([dict(t='rem', e=_leaf(4, 'recv')), dict(t='val', v=2), dict(t='rem', share=0, depth=1),
+                                dict(t='rem', share=0, depth=3)]), hops=_hops('frf'), seed=2),
+    # the design spike: cause chain, three hops forward / re-raise / mixed
+    dict(kind='leaf', tree=_leaf(0, depth=4, chain='cause'), hops=_hops('fff'), seed=3),
+    dict(kind='leaf', tree=_leaf(19, depth=4, chain='cause2'), hops=_hops('rrr'), seed=4),
+    dict(kind='leaf', tree=_leaf(15, depth=6, chain='context'), hops=_hops('frfrf'), seed=5),
+    # nested ensembles, bare members, five re-raising hops
+    dict(kind='ens', tree=_ens([dict(t='rem', e=_ens([dict(t='exc', e=_leaf(1)), dict(t='val', v=1)])),
+                                dict(t='exc', e=_leaf(13, 'recv')), dict(t='rem', e=_leaf(12))]), hops=_hops('frrrr'), seed=6),
+    # the guard: no traceback at the top / nested
+    dict(kind='boundary', tree=_leaf(0, 'dead'), hops=_hops('f'), seed=7),
+    dict(kind='boundary', tree=_ens([dict(t='exc', e=_leaf(0, 'dead'))]), hops=_hops('ff'), seed=8),
+]
+
+
 def keyfn(case, res, m):
     return f"{m['rule']}:{case['kind']}"
 
@@ -111,18 +142,26 @@ def run(chk):
     scen = _scen()
     n = 1500 if chk.tier == 'quick' else 250000
     kinds = ['', '', '', 'leaf', 'ens', 'ens', 'boundary']
-    cases = [scen.gen_case(chk.rng, chk.tier, chk.rng.choice(kinds)) for _ in range(n)]
-    # a few cases whose hops go through a real child process and multiprocessing queues (first in the
-    # list, so that the pool runs them in parallel with everything else)
+    # a few cases whose hops go through a real child process and multiprocessing queues
     nx = 8 if chk.tier == 'quick' else 64
-    xcases = [scen.gen_xproc_case(chk.rng, chk.tier) for _ in range(nx)]
-    results = _round(chk, scen, xcases + cases)
-    for case, res in results[:400]:
-        if scen.nontrivial(case, res) and (case['kind'] == 'ens' or len(chk.cov['samples']) < 1):
-            chk.sample(dict(case=case, origin=res['origin'], hops=[[h['line'], scen._short(h['obs'])] for h in res['hops']],
-                            names=res['names']))
+    batch = 25000                      # results carry the atomic text pieces: bound the memory held at once
+    done = 0
+    while done < n:
+        k = min(batch, n - done)
+        cases = [scen.gen_case(chk.rng, chk.tier, chk.rng.choice(kinds)) for _ in range(k)]
+        if done == 0:
+            cases = json.loads(json.dumps(CORPUS)) + [scen.gen_xproc_case(chk.rng, chk.tier) for _ in range(nx)] + cases
+        results = _round(chk, scen, cases)
+        done += k
+        for case, res in results[:400]:
             if len(chk.cov['samples']) >= 3:
                 break
+            if scen.nontrivial(case, res) and (case['kind'] == 'ens' or len(chk.cov['samples']) < 1):
+                chk.sample(dict(case=case, origin=res['origin'], names=res['names'],
+                                hops=[[h['line'], scen._short(h['obs'])] for h in res['hops']]))
+        del results
+        if chk.violations:
+            break
     if chk.corr_breaks and not chk.violations:
         # the model no longer predicts the code: look for a failing input around the disagreeing cases
         more = []
@@ -178,6 +217,8 @@ ASSUMPTIONS = [
 
 def replay(chk, data):
     scen = _scen()
+    if 'case' not in data and data.get('correspondence_breaks'):
+        data['case'] = data['correspondence_breaks'][0]['case']      # a `no-failing-input-found` replay file
     data['case']['verbose'] = True
     res = chk.run_cases(SCEN, [data['case']], sched=False)
     case, r = res[0]
